@@ -585,7 +585,18 @@ func (w *World) checkDIDCommitted() error {
 		return err
 	}
 	for _, d := range sortedKeys(w.DID.Entries) {
-		e := w.DID.Entries[d]
+		if err := w.checkDIDRead(d, w.DID.Entries[d]); err != nil {
+			return err
+		}
+	}
+	return nil
+}
+
+// checkDIDRead performs the read operation for d against the latest committed state and
+// compares the answer with e, the model's entry of that state.
+func (w *World) checkDIDRead(d string, e *DidEntry) error {
+	prop := w.Opt.Prop
+	{
 		got, found, log := w.QueryDID(d, 0)
 		if e.Tombstone {
 			if found {
@@ -594,7 +605,7 @@ func (w *World) checkDIDCommitted() error {
 			if w.On("C05") && !strings.Contains(strings.ToLower(log), "not found") && !strings.Contains(log, "NotFound") && !strings.Contains(log, "deactivated") {
 				return vio("C05", "read of deactivated %s did not report not-found: %s", d, log)
 			}
-			continue
+			return nil
 		}
 		if !found {
 			return vio(prop, "read of active %s failed: %s", d, log)
@@ -612,6 +623,23 @@ func (w *World) checkDIDCommitted() error {
 			if !bytes.Equal(bz, e.DocBytes) {
 				return vio(prop, "read of %s returned a document different from the last accepted one", d)
 			}
+		}
+	}
+	return nil
+}
+
+// checkDIDReadsNow is the oracle of a client's read at an arbitrary moment (also in the middle
+// of a block): the answer is the one of the last committed state.
+func (w *World) checkDIDReadsNow(dids []string) error {
+	if !isDIDProp(w.Opt.Prop) || w.committed == nil {
+		return nil
+	}
+	for _, d := range dids {
+		if e := w.committed.did.Entries[d]; e != nil {
+			if err := w.checkDIDRead(d, e); err != nil {
+				return err
+			}
+			w.Label("did read between commits compared with the committed state")
 		}
 	}
 	return nil
